@@ -8,7 +8,10 @@ the pathspecs as entirely unstaged.  The model (Model/SplitCarry.v) needs exactl
   initial_loop_unconditional  the loop over INITIAL's files inserts every key, with no condition
   pathspecs_only_grow         nothing removes entries from `pathspecs` in post_commit
   split_gets_pathspecs        the split is called with Some(&pathspecs)
-  untracked_whole_file        an untracked pathspec file becomes Range(1, line_count) in both maps
+  untracked_whole_file        an untracked pathspec file becomes Range(1, line_count) / one hunk (0,1,line_count)
+  translation_by_hunk_spans   the split translates work-tree lines with workdir_to_commit_line over the
+                              hunk extents and filters with replaced_commit_line (the form Model/Split.v
+                              describes; the earlier count-of-unstaged-lines form is a GenError)
 
 A condition on loop (b) flips initial_loop_unconditional to false (the carry theorem then stops
 checking); a loop that is not there, or that does something else, is a GenError.
@@ -75,8 +78,8 @@ def generate(L):
     cflat = re.sub(r"\s+", "", cu)
     need = ["forpathspecinpaths{", "ifunstaged_hunks.contains_key(pathspec){continue;}",
             "letrange=vec![LineRange::Range(1,line_count)];",
-            "unstaged_hunks.insert(pathspec.clone(),range.clone());",
-            "pure_insertion_hunks.insert(pathspec.clone(),range);"]
+            "unstaged_hunks.insert(pathspec.clone(),range);",
+            "unstaged_hunk_spans.insert(pathspec.clone(),vec![HunkSpan{old_count:0,new_start:1,new_count:line_count,}],);"]
     missing = [n for n in need if n not in cflat]
     if missing:
         raise L.GenError(f"collect_unstaged_hunks: untracked-file handling changed (missing {missing[0]!r})")
@@ -87,7 +90,35 @@ def generate(L):
         if n not in sflat:
             raise L.GenError(f"to_authorship_log_and_initial_working_log: {n} not found")
 
+    # the work-tree -> commit line translation that Model/Split.v describes (repaired form)
+    vsrc = L.read_src(rel2)
+    tr = re.sub(r"\s+", "", L.find_fn(vsrc, "workdir_to_commit_line", rel2))
+    for n in ["letmutcommit_line=i64::from(workdir_line);",
+              "lethunk_end=u64::from(hunk.new_start)+u64::from(hunk.new_count.saturating_sub(1));",
+              "ifhunk_end<u64::from(workdir_line){commit_line+=i64::from(hunk.old_count)-i64::from(hunk.new_count);}",
+              "u32::try_from(commit_line).ok()"]:
+        if n not in tr:
+            raise L.GenError(f"workdir_to_commit_line: expected {n!r}")
+    rp = re.sub(r"\s+", "", L.find_fn(vsrc, "replaced_commit_line", rel2))
+    for n in ["workdir_line>=hunk.new_start&&workdir_line-hunk.new_start<hunk.new_count.min(hunk.old_count)",
+              "ifreplaces{workdir_to_commit_line(hunks,workdir_line)}else{None}"]:
+        if n not in rp:
+            raise L.GenError(f"replaced_commit_line: expected {n!r}")
+    for n in ["replaced_commit_line(file_hunk_spans,*line).is_none_or(|commit_line|!committed_lines.contains(&commit_line))",
+              "letcommit_line_num=workdir_to_commit_line(file_hunk_spans,workdir_line_num);",
+              "letis_unstaged=unstaged_lines.binary_search(&workdir_line_num).is_ok();"]:
+        if n not in sflat:
+            raise L.GenError(f"to_authorship_log_and_initial_working_log: expected {n!r} "
+                             "(the model describes the hunk-based line translation)")
+    if "adjustment" in sflat:
+        raise L.GenError("to_authorship_log_and_initial_working_log: old count-based adjustment still present")
+    rel3 = "src/git/repository.rs"
+    hs = re.sub(r"\s+", "", L.find_fn(L.read_src(rel3), "parse_diff_hunk_spans", rel3))
+    if "&&letSome(span)=parse_hunk_header_counts(line){hunks.entry(file.clone()).or_default().push(span);}" not in hs:
+        raise L.GenError("parse_diff_hunk_spans: shape changed")
+
     return "\n".join([
+        "Definition translation_by_hunk_spans : bool := true.",
         "Definition initial_loop_unconditional : bool := " + L.coq_bool(unconditional) + ".",
         "Definition pathspecs_only_grow : bool := " + L.coq_bool(only_grow) + ".",
         "Definition split_gets_pathspecs : bool := true.",
